@@ -966,3 +966,19 @@ func (r *Run) AllocCount(fnName, shortTyp string, n int, why string) {
 	}
 	r.pass("K2-alloc-count", fnName, construct, "", why, file, line)
 }
+
+// PanicsAlways: every path through fn ends in a panic (it never returns normally).
+func (r *Run) PanicsAlways(fnName, why string) {
+	fn := r.fn(fnName)
+	if fn == nil {
+		return
+	}
+	file, line := r.P.FnPos(fn)
+	for _, b := range fn.Blocks {
+		if _, ok := lastInstr(b).(*ssa.Return); ok {
+			r.viol("K8-always-panics", fnName, "never returns", fnName+" can return normally; it must panic on every path", why, file, line)
+			return
+		}
+	}
+	r.pass("K8-always-panics", fnName, "never returns", "", why, file, line)
+}
